@@ -573,7 +573,10 @@ impl Store {
             // Fetch by id
             for id in filter.ids() {
                 // (the limit is applied below, once we know which are the newest)
-                if let Some(event) = self.get_event_by_id(id)? {
+                // (look the id up in this query's own read transaction, so that all
+                // the ids are answered from one and the same state of the store)
+                if let Some(offset) = self.indexes.get_offset_by_id(&txn, id)? {
+                    let event = unsafe { self.events.get_event_by_offset(offset as usize)? };
                     // and check each against the rest of the filter
                     if filter.event_matches(event)? && screen(event) {
                         let _ = output.insert(event);
